@@ -1,5 +1,6 @@
 """C14 supporting static fact: the compiled library keeps no writable object of static storage.
-Builds the three translation units from /repo's working tree (-O0, with and without USINGZ) and
+Builds the three translation units from /repo's working tree plus vf/scan_inst.cpp (a translation unit that only
+instantiates the header-only API: templates, inline functions and the C export layer) at -O0, with and without USINGZ, and
 lists every symbol in a writable section (.data/.bss: nm types d D b B).  A symbol is accepted only
 if it is the C++ runtime's std::__ioinit, a guard variable of an accepted symbol, or declared
 `const` at namespace scope in the sources (a const object with a dynamic initialiser is written once
@@ -7,7 +8,8 @@ before main)."""
 import os, re, subprocess, tempfile, shutil
 
 REPO = os.environ.get('VERIF_REPO', '/repo')
-SRCS = ['clipper.engine.cpp', 'clipper.offset.cpp', 'clipper.rectclip.cpp']
+SRCS = ['clipper.engine.cpp', 'clipper.offset.cpp', 'clipper.rectclip.cpp', 'scan_inst.cpp']
+HERE = os.path.dirname(os.path.abspath(__file__))
 
 
 def scan():
@@ -17,14 +19,15 @@ def scan():
     text = ''
     for root in (inc + '/clipper2', srcdir):
         for f in sorted(os.listdir(root)):
-            if f.endswith(('.h', '.cpp')) and 'export' not in f:
+            if f.endswith(('.h', '.cpp')):
                 text += open(os.path.join(root, f)).read()
     found, bad, cmds, accepted_ptrs = [], [], [], []
     try:
         for defs in ([], ['-DUSINGZ']):
             for s in SRCS:
                 o = os.path.join(wd, s + ('.z' if defs else '') + '.o')
-                cmd = ['g++', '-std=c++17', '-O0', '-c', '-I', inc] + defs + [os.path.join(srcdir, s), '-o', o]
+                src = os.path.join(HERE, s) if s == 'scan_inst.cpp' else os.path.join(srcdir, s)
+                cmd = ['g++', '-std=c++17', '-O0', '-w', '-c', '-I', inc] + defs + [src, '-o', o]
                 p = subprocess.run(cmd, capture_output=True, text=True)
                 if p.returncode != 0:
                     return dict(status='build-error', log=p.stderr[-1500:])
@@ -38,7 +41,7 @@ def scan():
         for unit, ty, sym in found:
             base = sym.replace('guard variable for ', '')
             name = base.split('::')[-1]
-            if base == 'std::__ioinit':
+            if base in ('std::__ioinit', 'vf_scan_sink'):
                 continue
             if '(' in base:
                 bad.append('%s: %s %s (function-local static)' % (unit, ty, sym))
